@@ -3,6 +3,7 @@
 //! fn: minicbor tuple / Vec / Option decoders instantiated with PositiveCoin
 //! stub: std::fmt::format -> empty String
 //! assume: minicbor 0.26.5 integer decoders are executed as they are, not modelled
+//! outside: Option<PositiveCoin> with a symbolic head byte (Option::decode puts Decoder::skip behind a symbolic guard: CBMC aborts or gives no verdict in 400 s); the immediates 00..17 inside an Option other than 01 (the bare PositiveCoin harnesses cover every immediate)
 //! outside: conway Value / Mint / donation embeddings (pallas-primitives; checked elsewhere); buffers longer than stated per harness
 use pallas_codec::minicbor::{self, Decoder};
 use pallas_codec::utils::{NonZeroInt, PositiveCoin};
@@ -123,20 +124,32 @@ fn c04_t_vec_indef_coin() {
     core::mem::forget(r);
 }
 
-/// bound: Option<PositiveCoin> (donation shape) from an arbitrary 9-byte buffer
-#[kani::proof]
-#[kani::unwind(3)]
-#[kani::stub(std::fmt::format, crate::stubs::fmt_format_stub)]
-fn c04_q_option_coin() {
-    let b: [u8; 9] = kani::any();
-    let r: Result<Option<PositiveCoin>, _> = minicbor::decode(&b);
-    if let Ok(Some(v)) = &r {
-        assert!(u64::from(*v) != 0, "a PositiveCoin decoded inside an Option is never zero");
-    }
-    kani::cover!(matches!(&r, Ok(None)), "null decodes to None");
-    kani::cover!(matches!(&r, Ok(Some(_))), "some amount decodes");
-    core::mem::forget(r);
+/// Option<PositiveCoin> (donation shape): Option::decode reaches Decoder::skip behind the "is it null" test, so the
+/// head byte is concrete per harness (a symbolic head gives no verdict: CBMC abort / > 400 s) and the payload symbolic
+macro_rules! opt {
+    ($name:ident, $head:expr, $n:expr) => {
+        #[kani::proof]
+        #[kani::unwind(4)]
+        #[kani::stub(std::fmt::format, crate::stubs::fmt_format_stub)]
+        fn $name() {
+            let mut b: [u8; $n] = kani::any();
+            b[0] = $head;
+            let r: Result<Option<PositiveCoin>, _> = minicbor::decode(&b);
+            if let Ok(Some(v)) = &r {
+                assert!(u64::from(*v) != 0, "a PositiveCoin decoded inside an Option is never zero");
+            }
+            kani::cover!(r.is_ok(), "some input of this class decodes");
+            core::mem::forget(r);
+        }
+    };
 }
+// bound: Option<PositiveCoin> on a buffer of exactly the item length, head byte concrete (f6 null, 01 smallest immediate, 18 / 19 / 1a / 1b), payload bytes symbolic
+opt!(c04_q_option_coin_null, 0xf6, 1);
+opt!(c04_q_option_coin_h01, 0x01, 1);
+opt!(c04_q_option_coin_h18, 0x18, 2);
+opt!(c04_t_option_coin_h19, 0x19, 3);
+opt!(c04_t_option_coin_h1a, 0x1a, 5);
+opt!(c04_q_option_coin_h1b, 0x1b, 9);
 
 /// the checked constructors agree with the decoders' contract
 /// bound: every u64 / i64
